@@ -10,6 +10,7 @@ for canonical_expr_equal(a, b) == True, evaluation of a and b.
 from __future__ import annotations
 
 import json
+import os
 import random
 
 from .. import common as C
@@ -124,6 +125,8 @@ def structured_cases(rng: random.Random, n: int):
 
 
 def cases(rng: random.Random, tier: str):
+    if os.environ.get("VERIF_EXPR_FAST_SEARCH") == "1":
+        tier = "quick"      # tools/mutate_expr.py only: keeps the runner's extended search at the size of the quick stream
     out = _load_corpus()
     out += structured_cases(rng, 3000 if tier == "quick" else 15000)
     out += random_cases(rng, 5000 if tier == "quick" else 65000)
